@@ -28,7 +28,7 @@ namespace Batchie.Orchestrator
 /-! ## the output directory -/
 
 inductive Kind where
-  | meta                 -- screen_metadata.json (the completion marker)
+  | marker               -- screen_metadata.json (the completion marker)
   | advanced             -- advanced_screen.h5
   | training             -- training.screen.h5
   | test                 -- test.screen.h5
@@ -68,7 +68,7 @@ def PlateDir.files (p : PlateDir) : List File := p.sub.getD []
 def findKind (k : Kind) (fs : List File) : Option File := fs.find? (fun f => f.kind = k)
 
 /-- `validate_job_dir_and_return_meta`: `None` when no `screen_metadata.json`, else its `n_unobserved_plates` -/
-def metaOf (p : PlateDir) : Option Nat := (findKind .meta p.files).map (·.content)
+def metaOf (p : PlateDir) : Option Nat := (findKind .marker p.files).map (·.content)
 
 /-- `get_screen_from_job_output`: the advanced screen when there is one, else the training screen -/
 def screenOf (p : PlateDir) : Option File :=
@@ -131,7 +131,7 @@ deriving DecidableEq, Repr, Inhabited
 /-- the inner `for idx, plate_dir in enumerate(plate_dirs)` -/
 def scanPlates (it : Nat) : Nat → List PlateDir → ExSt → Res ExErr ExSt
   | _, [], st => .ok st
-  | pos, p :: ps, st =>
+  | pos, p :: ps, _ =>
     match metaOf p with
     | none => .err (.invalid it p.idx)
     | some m =>
@@ -292,29 +292,30 @@ def modIter (i : Nat) (f : IterDir → IterDir) (its : List IterDir) : List Iter
   its.map (fun it => if it.idx = i then f it else it)
 
 def modPlate (i j : Nat) (f : PlateDir → PlateDir) (its : List IterDir) : List IterDir :=
-  modIter i (fun it => { it with plates := it.plates.map (fun p => if p.idx = j then f p else p) }) its
+  modIter i (fun it => ⟨it.idx, it.plates.map (fun p => if p.idx = j then f p else p)⟩) its
+
+def rmdirNameSub : Option (List File) → Option (List File)
+  | some [] => none
+  | s => s
 
 def Action.apply (a : Action) (t : Tree) : Tree :=
   match a with
   | .mkdirOut => { t with out := true }
   | .unlink i j k =>
-    { t with iters := modPlate i j (fun p => { p with sub := p.sub.map (fun fs => fs.filter (fun f => f.kind ≠ k)) }) t.iters }
+    { t with iters := modPlate i j (fun p => ⟨p.idx, p.sub.map (fun fs => fs.filter (fun f => f.kind ≠ k))⟩) t.iters }
   | .rmdirName i j =>
-    { t with iters := modPlate i j (fun p => { p with sub := match p.sub with
-                                                            | some [] => none
-                                                            | s => s }) t.iters }
+    { t with iters := modPlate i j (fun p => ⟨p.idx, rmdirNameSub p.sub⟩) t.iters }
   | .rmdirPlate i j =>
-    { t with iters := modIter i (fun it => { it with plates :=
-        it.plates.filter (fun p => ¬ (p.idx = j ∧ p.sub = none)) }) t.iters }
+    { t with iters := modIter i (fun it => ⟨it.idx, it.plates.filter (fun p => ¬ (p.idx = j ∧ p.sub = none))⟩) t.iters }
   | .mkdirIter i =>
     if (findIter i t.iters).isSome then t else { t with iters := t.iters ++ [⟨i, []⟩] }
   | .mkdirPlate i j =>
     { t with iters := modIter i (fun it =>
-        if (findPlate j it.plates).isSome then it else { it with plates := it.plates ++ [⟨j, none⟩] }) t.iters }
+        if (findPlate j it.plates).isSome then it else ⟨it.idx, it.plates ++ [⟨j, none⟩]⟩) t.iters }
   | .mkdirName i j =>
-    { t with iters := modPlate i j (fun p => { p with sub := some p.files }) t.iters }
+    { t with iters := modPlate i j (fun p => ⟨p.idx, some p.files⟩) t.iters }
   | .publish i j f =>
-    { t with iters := modPlate i j (fun p => { p with sub := some (p.files ++ [f]) }) t.iters }
+    { t with iters := modPlate i j (fun p => ⟨p.idx, some (p.files ++ [f])⟩) t.iters }
 
 def applyAll (as : List Action) (t : Tree) : Tree := as.foldl (fun t a => a.apply t) t
 
@@ -386,7 +387,7 @@ def removalEvents (as : List Action) : List Event :=
 
 /-- the user's `rm -rf iter_i/plate_j` (atomic) -/
 def userRemove (i j : Nat) (t : Tree) : Tree :=
-  { t with iters := modIter i (fun it => { it with plates := it.plates.filter (fun p => p.idx ≠ j) }) t.iters }
+  { t with iters := modIter i (fun it => ⟨it.idx, it.plates.filter (fun p => p.idx ≠ j)⟩) t.iters }
 
 structure InvRes where
   tree : Tree
@@ -395,36 +396,45 @@ structure InvRes where
   halted : Bool
 deriving Repr, Inhabited
 
-/-- run `as` with a budget of atomic actions; returns the tree, what is left of the budget
-    (`none` = unlimited) and whether every action was performed -/
-def runBudget (as : List Action) (k : Option Nat) (t : Tree) : Tree × Option Nat × Bool :=
+/-- the part of `as` that a budget of `k` atomic actions allows (`none` = unlimited) -/
+def takeB {α : Type} (k : Option Nat) (as : List α) : List α :=
   match k with
-  | none => (applyAll as t, none, true)
-  | some k => (applyAll (as.take k) t, some (k - as.length), decide (as.length ≤ k))
+  | none => as
+  | some k => as.take k
+
+/-- every action of `as` fits into the budget -/
+def doneB {α : Type} (k : Option Nat) (as : List α) : Bool :=
+  match k with
+  | none => true
+  | some k => decide (as.length ≤ k)
+
+/-- the budget left after `as` -/
+def restB {α : Type} (k : Option Nat) (as : List α) : Option Nat := k.map (fun k => k - as.length)
+
+/-- the step function after `os.makedirs(output_dir, exist_ok=True)`, with a budget of `k` atomic actions -/
+def invokeCore (cfg : Cfg) (k : Option Nat) (t : Tree) : InvRes :=
+  match planStep cfg t with
+  | .named i j => ⟨userRemove i j t, [.userRemoved i j], false⟩
+  | .finished => ⟨t, [.finished], true⟩
+  | .failed pre e =>
+    ⟨applyAll (takeB k pre) t, removalEvents (takeB k pre) ++ (if doneB k pre then [.failed e] else []), false⟩
+  | .go pre l =>
+    let t1 := applyAll (takeB k pre) t
+    let rem := removalEvents (takeB k pre)
+    if !doneB k pre then ⟨t1, rem, false⟩
+    else
+      let k1 := restB k pre
+      let t2 := applyAll (takeB k1 (pubActions cfg l)) t1
+      if !doneB k1 (pubActions cfg l) then ⟨t2, rem ++ [.launched l], false⟩
+      else ⟨t2, rem ++ [.launched l, .completed l], cfg.mode = .prospective ∧ ¬ (l.plate + 1 < cfg.B)⟩
 
 /-- one call of the step function, interrupted after `k` atomic actions (`none`: not interrupted; an
     interruption "after" the last action is the same as no interruption followed by an interruption
     at action 0 of the next call) -/
 def invoke (cfg : Cfg) (k : Option Nat) (t : Tree) : InvRes :=
-  let a0 := if t.out then [] else [Action.mkdirOut]
-  let (t0, k0, done0) := runBudget a0 k t
-  if !done0 then ⟨t0, [], false⟩
-  else
-    match planStep cfg t0 with
-    | .named i j => ⟨userRemove i j t0, [.userRemoved i j], false⟩
-    | .finished => ⟨t0, [.finished], true⟩
-    | .failed pre e =>
-      let (t1, _, done1) := runBudget pre k0 t0
-      ⟨t1, removalEvents (match k0 with | none => pre | some k => pre.take k) ++ (if done1 then [.failed e] else []), false⟩
-    | .go pre l =>
-      let (t1, k1, done1) := runBudget pre k0 t0
-      let rem := removalEvents (match k0 with | none => pre | some k => pre.take k)
-      if !done1 then ⟨t1, rem, false⟩
-      else
-        let (t2, _, done2) := runBudget (pubActions cfg l) k1 t1
-        if !done2 then ⟨t2, rem ++ [.launched l], false⟩
-        else ⟨t2, rem ++ [.launched l, .completed l],
-              cfg.mode = .prospective ∧ ¬ (l.plate + 1 < cfg.B)⟩
+  if t.out then invokeCore cfg k t
+  else if doneB k [Action.mkdirOut] then invokeCore cfg (restB k [Action.mkdirOut]) (Action.mkdirOut.apply t)
+  else ⟨t, [], false⟩
 
 /-- any number of calls, each with its own interruption point; stops when `main`'s loop ends by itself -/
 def runSched (cfg : Cfg) : List (Option Nat) → Tree → List Event → Tree × List Event
